@@ -14,6 +14,25 @@ PROPS = {
     "C01": dict(prop_file="props/C01.v", generators=ENG, module="harness.p_dyn",
                 slice="Blocks.v trees (both generated engines) vs NumPy step and CasADi SX/MX functions",
                 trusted=DYN_TRUST),
+    "C02": dict(prop_file="props/C02.v", generators=ENG, module="harness.p_dyn",
+                slice="Blocks.v trees vs NumPy step and CasADi functions (the values the balance is about)",
+                trusted=DYN_TRUST + ["C02 is stated on Spec.v values; C01 (proved) identifies them with the model's outputs"]),
+    "C10": dict(prop_file="props/C10.v", generators=ENG, module="harness.p_dyn",
+                slice="Blocks.v trees vs CasADi functions; Jacobian sparsity vs variable sets of the Spec trees",
+                trusted=DYN_TRUST + ["C10 is stated on Spec.v values; C01 identifies them with the model's outputs"]),
+    "C11": dict(prop_file="props/C11.v", generators=ENG, module="harness.p_dyn",
+                slice="Blocks.v trees under a clamping option set vs NumPy step and CasADi functions",
+                trusted=["FunctionalExtensionality.functional_extensionality_dep (the only axiom; theorems hold for every numeric structure)",
+                         "hand-written element-layer model Blocks.v (tied by the dynamics correspondence)"]),
+    "C14": dict(prop_file="props/C14.v", generators=ENG, module="harness.p_dyn",
+                slice="Blocks.v trees vs NumPy/CasADi on networks rebuilt in shuffled order",
+                trusted=DYN_TRUST + ["names do not occur in Blocks.v; their absence of influence on the implementation is checked dynamically"]),
+    "C17": dict(prop_file="props/C17.v", generators=ENG, module="harness.p_dyn",
+                slice="generated origin primitives (trees) vs both engines; Blocks.v trees vs NumPy/CasADi at corner states",
+                trusted=DYN_TRUST),
+    "C18": dict(prop_file="props/C18.v", generators=ENG, module="harness.p_dyn",
+                slice="generated primitives (trees) vs both engines; Blocks.v trees vs NumPy/CasADi; paired controlled/plain networks",
+                trusted=DYN_TRUST + ["literal IEEE inf controls are exercised dynamically only"]),
     "C15": dict(prop_file="props/C15.v", generators=ENG, module="harness.p_prims",
                 slice="generated primitive definitions (expression trees) vs direct calls of both engines",
                 trusted=REALS + ["float-level agreement of numpy.power / casadi pow etc. is dynamic only"]),
